@@ -588,3 +588,41 @@ def _mk_e2e(opname):
 
 for _o in BINOPS:
     _mk_e2e(_o)
+
+
+
+@family("C09.builtin-types", props=["C09", "C04", "C10"], functions=[T + "::BuiltinTypeFactory", "nsl.parser::NslParser.p_primitive_type"],
+        assumptions=["the spellings are read from the grammar production `primitive_type` of the real parser on every run (finite: complete)"])
+def builtin_types(R):
+    """Every built-in type spelling the grammar accepts denotes the type its name says: `float`, `int`, `uint` the scalars, `<scalar>N` a vector
+    of N components of that scalar, `floatNxM` / `matrixNxM` the float matrix with N rows and M columns, `void` void."""
+    import re
+    import nsl.parser as PM
+    import nsl.lexer as LX
+    ty = _types()
+    f = resolve(T + "::BuiltinTypeFactory")
+    doc = PM.NslParser.p_primitive_type.__doc__ or ""
+    toks = [t for t in re.split(r"[\s|:]+", doc) if t and t != "primitive_type"]
+    R.check("C09.builtin-types.grammar", "nsl.parser::NslParser.p_primitive_type", len(toks) >= 16, detail=f"tokens of the production: {toks}")
+    reserved = {v: k for k, v in getattr(LX.NslLexer, "reserved", {}).items()} if hasattr(LX.NslLexer, "reserved") else {}
+    for tok in toks:
+        spelling = reserved.get(tok, tok.lower())
+        try:
+            t = f(spelling)
+        except Exception as e:
+            R.check(f"C09.builtin-types[{spelling}]", T + "::BuiltinTypeFactory", False, detail=f"BuiltinTypeFactory({spelling!r}) raised {type(e).__name__}: {e}")
+            continue
+        m = re.fullmatch(r"(float|int|uint|matrix)(\d)?(?:x(\d))?", spelling)
+        if spelling == "void":
+            ok = isinstance(t, ty.Void)
+        elif m is None:
+            ok = False
+        else:
+            base = {"float": ty.Float, "int": ty.Integer, "uint": ty.UnsignedInteger, "matrix": ty.Float}[m.group(1)]
+            if m.group(3):
+                ok = isinstance(t, ty.MatrixType) and type(t.GetComponentType()) is base and t.GetRowCount() == int(m.group(2)) and t.GetColumnCount() == int(m.group(3))
+            elif m.group(2):
+                ok = isinstance(t, ty.VectorType) and type(t.GetComponentType()) is base and t.GetComponentCount() == int(m.group(2))
+            else:
+                ok = type(t) is base
+        R.check(f"C09.builtin-types[{spelling}]", T + "::BuiltinTypeFactory", ok, detail=f"`{spelling}` denotes {t!r}")
